@@ -84,6 +84,9 @@ public:
 		return *this;
 	}
 	bitset &operator<<=(size_t pos) noexcept {
+		// Shifting by at least N bits clears the set (and must not index past the buffer).
+		if (pos >= N)
+			return reset();
 		if (pos != 0) {
 			size_t wshift = pos / 64;
 			size_t offset = pos % 64;
@@ -107,6 +110,8 @@ public:
 	}
 
 	bitset &operator>>=(size_t pos) noexcept {
+		if (pos >= N)
+			return reset();
 		if (pos != 0) {
 			const size_t wshift = pos / 64;
 			const size_t offset = pos % 64;
